@@ -88,6 +88,17 @@ class World:
                     out.append(tuple(sorted((self.reg.token(v), c) for v, c in rc.items() if c)))
         return tuple(out)
 
+    def refcounts(self):
+        """Membership reference counts of the tracked input/output lists (internal, but they decide
+        when ownership flags are cleared, so a rejected call must not change them either)."""
+        out = {}
+        for g in self.graphs:
+            for nm, coll in (("inputs", g.inputs), ("outputs", g.outputs)):
+                rc = getattr(coll, "_ref_counter", None)
+                if rc is not None:
+                    out[f"{self.reg.token(g)}.{nm}"] = tuple(sorted((self.reg.token(v), c) for v, c in rc.items() if c))
+        return out
+
     def canon(self):
         s = self.snap()
         return (tuple(sorted(s.items())), self.hidden())
@@ -204,6 +215,23 @@ def seed_nested(w: World):
     for n in (n0, n1, n2):
         w.add_node(n)
     del g0, v2
+
+
+@seed
+def seed_unsorted(w: World):
+    # both the main graph and the If body are out of order (but acyclic); one edit away from a cycle
+    v0 = w.add_value(ir.Value(name="a"))
+    v1 = w.add_value(ir.Value(name="b", const_value=_tensor("b")))
+    n0 = ir.Node("", "Relu", [v0], name="n0")
+    n1 = ir.Node("", "Neg", [n0.outputs[0]], name="n1")
+    n3 = ir.Node("", "Abs", [n1.outputs[0]], name="n3")
+    g1 = ir.Graph([], [n3.outputs[0]], nodes=[n3, n1], name="G1")  # n3 before its producer n1
+    n2 = ir.Node("", "If", [n0.outputs[0]], [ir.AttrGraph("then_branch", g1)], name="n2")
+    w.add_graph(ir.Graph([v0], [n2.outputs[0]], nodes=[n2, n0], name="G0"))  # n2 before its producer n0
+    w.add_graph(g1)
+    for n in (n0, n1, n2, n3):
+        w.add_node(n)
+    del v1
 
 
 @seed
